@@ -452,6 +452,21 @@ def judge_c12(tier):
         rng = random.Random(seed())
         for op, f, t in mutants(rng, tier, spellings):
             yield {"fam": "mut", "op": op, "file": f, "text": t}
+        # semantically interesting shapes: every kind of regex atom next to the (left / right) self
+        # reference of a recursive branch, where the analysis passes classify branches and pick operators
+        atoms = ["A", "e", "?1", "?t", "#1", "!1", "@x", "^", "<1", "1>y", ">z", "~", "&", "(A)", "[A]", "A*", "()", "'+'"]
+        shapes = []
+        for x in atoms:
+            shapes += ["e %s" % x, "%s e" % x]
+            for y in atoms:
+                shapes += ["e %s %s" % (x, y), "%s e %s" % (x, y), "%s %s e" % (x, y)]
+        for k, br in enumerate(shapes):
+            for ctx in ("start s;\ns: e A;\ne: %s | N;", "start e;\ne: %s | N;", "start s;\npart e;\ns: A;\ne: N | %s;",
+                        "start s;\ns: (e A / e) A;\ne: %s | N | e A;"):
+                if tier == "quick" and (k + len(ctx)) % 2:
+                    continue
+                yield {"fam": "mut", "op": "shape", "file": "shape%d" % k,
+                       "text": "token A N P='+';\n" + (ctx % br) + "\n"}
         for f in file_sources():        # the unmutated files: base line of the mutation family
             with open(f, encoding="utf-8") as fh:
                 yield {"fam": "mut", "op": "original", "file": os.path.relpath(f, "/"), "text": fh.read()}
